@@ -130,6 +130,10 @@ func Lt(t *Thread, x, y Value) (bool, error) {
 }
 
 func ltIntAndFloat(n int64, f float64) bool {
+	if f >= 0x1p63 {
+		// f is larger than any integer (int64(f) is not meaningful here)
+		return true
+	}
 	nf := int64(f)
 	if float64(nf) == f {
 		return n < nf
@@ -154,6 +158,10 @@ func leIntAndFloat(n int64, f float64) bool {
 }
 
 func leFloatAndInt(f float64, n int64) bool {
+	if f >= 0x1p63 {
+		// f is larger than any integer (int64(f) is not meaningful here)
+		return false
+	}
 	nf := int64(f)
 	if float64(nf) == f {
 		return nf <= n
